@@ -227,10 +227,20 @@ def scanExp (s : Str) : Option (Str × Str) :=
     else some ([], s)
   | [] => some ([], s)
 
-/-- `parse_any_number`: `-? (0 | [1-9][0-9]*) (.[0-9]+)? ([eE][+-]?[0-9]+)?`; a second digit after
-a leading `0` is an error.  An integer without fraction and exponent is a `u64` when it fits
-(`PosInt`), with a minus sign an `i64` when it is in −2^63..−1 (`NegInt`); everything else
-(`-0`, too large, fraction, exponent) is a float, converted from the token text. -/
+def headIsDigit : Str → Bool
+  | d :: _ => isAsciiDigit d
+  | [] => false
+
+/-- `parse_integer`: the integer part starting with the digit `c`: a lone `0` (a digit right after
+a leading `0` is the "invalid number" error) or `[1-9][0-9]*` -/
+def scanInt (c : Nat) (cs : Str) : Option (Str × Str) :=
+  if c = 48 then (if headIsDigit cs then none else some ([48], cs))
+  else some (c :: (takeDigits cs).1, (takeDigits cs).2)
+
+/-- `parse_any_number`: `-? (0 | [1-9][0-9]*) (.[0-9]+)? ([eE][+-]?[0-9]+)?`.  An integer without
+fraction and exponent is a `u64` when it fits (`PosInt`), with a minus sign an `i64` when it is in
+−2^63..−1 (`NegInt`); everything else (`-0`, too large, fraction, exponent) is a float, converted
+from the token text. -/
 def parseNumber (ft : FloatText) (s : Str) : Option (JNum × Str) :=
   let neg := startsWith 45 s
   let s1 := if neg then s.tail else s
@@ -239,13 +249,7 @@ def parseNumber (ft : FloatText) (s : Str) : Option (JNum × Str) :=
   | c :: cs =>
     if !isAsciiDigit c then none
     else
-      let ip : Option (Str × Str) :=
-        if c = 48 then
-          (if (match cs with
-               | d :: _ => isAsciiDigit d
-               | [] => false) then none else some ([48], cs))
-        else let (ds, r) := takeDigits cs; some (c :: ds, r)
-      match ip with
+      match scanInt c cs with
       | none => none
       | some (intDigits, r1) =>
         match scanFrac r1 with
